@@ -299,7 +299,14 @@ def run(ctx):
         ctx.check(nprod >= 2, 'C01-search', 'both products of the shift count found', shift[0], 'found %d' % nprod, construct='shift:width:n')
         fs = F.facts_at_ast(shift[0]) or frozenset()
         last = 'this.transitions_[(this.transitions_.size() - n:1)].unix_time'
-        ctx.check(any(op == '<=' and a == last for (op, a, b) in fs) and any('extended_' in a + b and op == '!=' for (op, a, b) in fs),
+        def _res(a_):
+            # (a reference local bound to the last entry names that entry)
+            m_ = re.match(r'^(\w+)#(0x[0-9a-f]+)(\..*)$', a_ or '')
+            d_ = u.by_id.get(m_.group(2)) if m_ else None
+            if d_ is not None and d_.get('kind') == 'VarDecl' and kids(d_) and '&' in (qtype(d_) or ''):
+                return F.ident_key(kids(d_)[-1]) + m_.group(3)
+            return a_
+        ctx.check(any(op == '<=' and _res(a) == last for (op, a, b) in fs) and any('extended_' in a + b and op == '!=' for (op, a, b) in fs),
                   'C01-search', 'shift only at/after the last transition of an extended table', shift[0],
                   'the 400-year shift is applied without t >= last transition and extended_', construct='shift:guard')
     ctx.minimum('C01-search', 13)
